@@ -1,9 +1,31 @@
 """C14 -- inverse paths add incoming-link constraints and leave the rest untouched.
 
-Oracle: three real runs: G with inverse_paths, G without, reverse(G) without."""
-import random
+Oracle, on three real runs (G with inverse_paths, G without, reverse(G) without):
+  * the run with inverse_paths has the instance counts and the outgoing constraints of the run without;
+  * its incoming ('^') constraints are the outgoing constraints of the reversed graph (strict when no blank node
+    is involved): literal triples are never reversed, so a literal can never give an incoming constraint;
+  * its incoming constraints are those of the DATA: keys (against the threshold) and every figure recomputed from
+    the abstract triples (the Spec-level recount of C01 / C02 -- pipespec.check_figures / check_keys -- restricted
+    to the '^' constraints), for every target, whatever way it was selected.
 
-from vp import pipeprops, pipespec, pipe
+Streams: graphs as C01 (class targets); the same with literals whose lexical form is the IRI / blank-node label of
+a tracked instance, of a class, of a property (plain, "..."^^xsd:string, xsd:anyURI, language-tagged); shape-map
+runs (vp.pipemap: Model/RunMap.v is the corresponded model) in which some targets only ever occur as objects
+(selected by node selectors or {_ p FOCUS}).
+"""
+import random
+import re
+from fractions import Fraction
+
+from vp import core, pipeprops, pipespec, pipe, pipemap
+from vp.props import c10
+
+pipemap.install()      # shape-map runs (cfg["smap"]) go through Model.RunMap / Shaper(shape_map_raw=...)
+
+E = pipemap.E
+SH = pipemap.SH
+XS = pipe.XSD + "string"
+ANYURI = pipe.XSD + "anyURI"
 
 
 def reverse_graph(ts, tau):
@@ -23,14 +45,363 @@ def cons_list(doc, inv, tau, skip_tau):
             for sh in doc["shapes"]}
 
 
+# --------------------------------------------------------------------------
+# generators
+# --------------------------------------------------------------------------
+
+def plant_iri_literals(r, ts, tau=pipe.RDF_TYPE, extra_nodes=(), avoid_props=()):
+    """adds 1..4 statements `s p "lex"` whose object is a LITERAL spelled like a term of the graph: the IRI (or the
+    blank-node label) of a typed node / of a node named in extra_nodes / of any node, a class IRI, a property IRI;
+    on a property of the graph (not one of avoid_props: those a {_ p FOCUS} selector of the case ranges over, whose
+    answers must stay IRIs -- a literal answer is C10's finding C10-F1) or a fresh one; plain, written "..."^^xsd:string, xsd:anyURI or language-tagged.
+    The literal is not a link: it must count as a literal value of s and as nothing for the node it spells."""
+    ts = list(ts)
+    subjects = list(dict.fromkeys(s for s, _, _ in ts)) or [("I", E + "n0")]
+    typed = list(dict.fromkeys(s for s, p, o in ts if p == tau and o[0] != "L")) + [tuple(x) for x in extra_nodes]
+    objects = list(dict.fromkeys(o for _, p, o in ts if p != tau and o[0] != "L"))
+    classes = list(dict.fromkeys(o[1] for _, p, o in ts if p == tau and o[0] == "I"))
+    props = list(dict.fromkeys(p for _, p, _ in ts if p != tau))
+    own = [p for p in props if p not in avoid_props]
+    have = {(s, p, o[1], o[2]) for s, p, o in ts if o[0] == "L"}
+    for _ in range(r.choice([1, 2, 2, 3, 4])):
+        k = r.random()
+        if k < 0.6 and typed:
+            lex = r.choice(typed)[1]
+        elif k < 0.75 and objects:
+            lex = r.choice(objects)[1]
+        elif k < 0.88 and classes:
+            lex = r.choice(classes)
+        else:
+            lex = r.choice(props + [tau])
+        kd = r.random()
+        if kd < 0.4:
+            o = ("L", lex, XS)
+        elif kd < 0.6:
+            o = ("L", lex, XS, "^^")
+        elif kd < 0.9:
+            o = ("L", lex, ANYURI)
+        else:
+            o = ("L", lex, pipe.LANGSTRING, "en")
+        p = r.choice(own) if (own and r.random() < 0.6) else E + r.choice(["about", "source"])
+        s = r.choice(subjects)
+        if (s, p, o[1], o[2]) in have:
+            continue
+        have.add((s, p, o[1], o[2]))
+        ts.insert(r.randint(0, len(ts)), (s, p, o))
+    return ts
+
+
+def sink_graph(r, plant=False):
+    """reviews r* pointing at works w*; some works have triples of their own, some (the sinks) only ever occur as
+    objects; reviews may point at each other and at unlabelled nodes / blank nodes; a blank node may point at a
+    work.  Returns (triples, items): the works are selected by node selectors and / or {_ ex:cites FOCUS}, the
+    reviews by node selectors or {FOCUS ex:year _}."""
+    nr, nw = r.randint(1, 4), r.randint(2, 5)
+    R = [("I", E + "r%d" % k) for k in range(nr)]
+    W = [("I", E + "w%d" % k) for k in range(nw)]
+    sinks = set(r.sample(W, r.randint(1, nw)))
+    ts = []
+    for x in R:
+        if r.random() < 0.8:
+            ts.append((x, E + "year", ("L", "v%d" % r.randint(0, 3), XS)))
+        for p in ("cites", "extends")[:r.randint(1, 2)]:
+            for w in r.sample(W, r.randint(0, min(3, nw))):
+                ts.append((x, E + p, w))
+        if r.random() < 0.3:
+            ts.append((x, E + "cites", r.choice(R + [("I", E + "u0"), ("B", "_:z0")])))
+        if r.random() < 0.25:
+            ts.append((x, pipe.RDF_TYPE, ("I", E + "Review")))
+    for w in W:
+        if w not in sinks:
+            ts.append((w, E + "title", ("L", "v%d" % r.randint(0, 3), XS)))
+            if r.random() < 0.3:
+                ts.append((w, E + "cites", r.choice(W)))
+    if r.random() < 0.3:
+        ts.append((("B", "_:y0"), E + "cites", r.choice(W)))
+    if r.random() < 0.3:
+        ts.append((("I", E + "u1"), E + "extends", r.choice(W)))
+    ts = list(dict.fromkeys(ts))
+    r.shuffle(ts)
+    if plant:
+        ts = plant_iri_literals(r, ts, extra_nodes=list(sinks) + R, avoid_props=(E + "cites",))
+    items = []
+    lw = ["A", SH + "Work"] if r.random() < 0.7 else ["P", "sh", "Work"]
+    lr = ["A", SH + "Review"] if r.random() < 0.7 else ["P", "sh", "Review"]
+    mode = r.random()
+    if mode < 0.6:
+        for w in W:
+            if r.random() < 0.9:
+                items.append([["node", ["A", w[1]] if r.random() < 0.6 else ["P", "ex", w[1][len(E):]]], lw])
+    if mode >= 0.45 and all(o[0] == "I" for _, p, o in ts if p == E + "cites"):
+        items.append([["fo", ["W"], ["P", "ex", "cites"]], lw])
+    if not items:
+        items.append([["node", ["A", W[0][1]]], lw])
+    if r.random() < 0.8:
+        if r.random() < 0.5 and any(p == E + "year" for _, p, _ in ts):
+            items.append([["fs", ["P", "ex", "year"], ["W"]], lr])
+        else:
+            for x in R:
+                if r.random() < 0.85:
+                    items.append([["node", ["A", x[1]]], lr])
+    r.shuffle(items)
+    return ts, items
+
+
+def node_items(ts, cfg):
+    """the oracle's own denotation of the run's shape map, written as node selectors (None if a selected node is
+    not an IRI or nothing is selected): what the run on the reversed graph is given"""
+    sm_keys = [(i, k) for i, ks in pipemap.spec_instances_map(ts, dict(cfg, all_classes=False)).items() for k in ks]
+    if not sm_keys or any(i.startswith("_:") for i, _ in sm_keys):
+        return None
+    return [[["node", ["A", i]], ["A", k[1:-1]]] for i, k in sm_keys]
+
+
+def fixed_map(cfg, items):
+    cfg = dict(cfg)
+    cfg["smap"] = {"fmt": "fsm", "text": c10.render_fixed(items, None), "pairs": None, "tau": cfg["smap"].get("tau"),
+                   "items": items, "answers": {}}
+    return cfg
+
+
+def map_case(r, i):
+    """one shape-map case: (G, on), (G, off) and -- when the selected nodes are IRIs -- (reverse(G), off) with the
+    same nodes under the same labels"""
+    base = pipe.switch_cfg(i)
+    base["mode"] = r.choice(["mixed", "mixed", "mixed", "ratio", "abs"])
+    base["remove_empty_shapes"] = r.random() < 0.6
+    fam = i % 4
+    if fam in (0, 1):
+        cfg = dict(base)
+        ns = [(E, "ex"), (SH, "sh")] + ([r.choice(pipemap.NS_POOL[2:])] if r.random() < 0.3 else [])
+        r.shuffle(ns)
+        cfg.update({"ns": ns, "targets": [], "cap": -1, "all_classes": r.random() < 0.2, "smap": {"tau": None}})
+        plant = r.random() < 0.4
+        for attempt in range(20):
+            # every selector must answer IRIs (a blank node or a literal answered by a FOCUS pattern is C10-F1):
+            # a planted statement may have given ex:year to a blank node
+            ts, items = sink_graph(r, plant=plant and attempt < 19)
+            if pipemap.iri_only(ts, cfg, items):
+                break
+        if pipemap.needs_grouping(items):
+            ts = pipemap.group_po(ts)
+        pipemap.render(cfg, items, r, layout=False)
+        cfg["smap"]["answers"] = {}
+        fname = "sinks"
+    elif fam == 2:
+        ts, cfg = pipemap.refs_run(r, base)
+        fname = "references"
+    else:
+        ts = pipe.gen_graph(r, general=(i % 8 != 3))
+        if r.random() < 0.5:
+            ts = plant_iri_literals(r, ts)
+        ts, cfg = pipemap.to_map_run(r, ts, base, only_iri=True, sparql=False)
+        fname = "general"
+    cfg["thr"] = r.choice(pipemap.thresholds_map(ts, cfg, r))
+    on, off = dict(cfg), dict(cfg)
+    on["inverse_paths"], off["inverse_paths"] = True, False
+    runs = [(ts, on), (ts, off)]
+    iri_only = all(t[0][0] != "B" and t[2][0] != "B" for t in ts)
+    items3 = node_items(ts, cfg)
+    if items3 is not None:
+        runs.append((reverse_graph(ts, cfg["tau"]), fixed_map(off, items3)))
+    pipemap.note_case(fname, cfg)
+    note_inputs(ts, on, "map")
+    if len(runs) == 3:
+        pipemap.STATS["c14:map_cases_with_reversed_run"] += 1
+    return {"runs": runs, "meta": {"stream": "shape-map", "family": fname, "iri_only": iri_only, "i": i}}
+
+
+def note_inputs(ts, cfg, stream):
+    """generation-time statistics (parent process; printed under coverage.shape_map_stream): what the inputs hold"""
+    inst = pipespec.spec_instances(ts, cfg)
+    subj = {s[1] for s, _, _ in ts}
+    sinks = [i for i in inst if i not in subj]
+    spelled = [o for _, p, o in ts if o[0] == "L" and p != cfg["tau"] and o[1] in inst]
+    st = pipemap.STATS
+    st["c14:%s_cases" % stream] += 1
+    if sinks:
+        st["c14:%s_cases_with_a_target_that_is_never_a_subject" % stream] += 1
+        if any(o[0] != "L" and o[1] in sinks for _, p, o in ts if p != cfg["tau"]):
+            st["c14:%s_cases_with_such_a_target_having_incoming_links" % stream] += 1
+    if spelled:
+        st["c14:%s_cases_with_a_literal_spelling_a_target" % stream] += 1
+        st["c14:literals_spelling_a_target"] += len(spelled)
+
+
+# --------------------------------------------------------------------------
+# oracle
+# --------------------------------------------------------------------------
+
+_FOREIGN = None
+
+
+def foreign_tags():
+    """root-cause tags of the known findings of C01 / C02 (figures and keys in general: their checks own them);
+    the recount below reports them with their tag, and they are not C14's to judge"""
+    global _FOREIGN
+    if _FOREIGN is None:
+        _FOREIGN = {f["root_cause_tag"] for pid in ("C01", "C02") for f in core.load_findings(pid)
+                    if f.get("status") == "known" and f.get("root_cause_tag")}
+    return _FOREIGN
+
+
+def inverse_only(doc):
+    return {"prefixes": doc["prefixes"], "dup_prefixes": [], "unparsed": [],
+            "shapes": [dict(sh, constraints=[c for c in sh["constraints"] if c["inv"]]) for sh in doc["shapes"]]}
+
+
+_KEYMSG = re.compile(r"^class \S+ (?:lacks|has) key \(True, ")
+
+
+def recount_incoming(ts, cfg, doc):
+    """the '^' constraints of the run against the data: figures (pipespec.check_figures on the incoming constraints)
+    and keys (pipespec.check_keys / pipemap.check_keys_map, failures that speak of an incoming key or of a missing
+    shape)"""
+    fails = []
+    n = 0
+    if not cfg["disable_comments"]:
+        f, n = pipespec.check_figures(ts, cfg, inverse_only(doc))
+        fails += f
+    f, k = (pipemap.check_keys_map if pipemap.is_map(cfg) else pipespec.check_keys)(ts, cfg, doc)
+    fails += [(rc, d) for rc, d in f if _KEYMSG.match(d) or d.endswith("instances and no shape")]
+    return [(rc, d) for rc, d in fails if rc not in foreign_tags()], n + k
+
+
+def instances_by_label(ts, cfg):
+    out = {}
+    for i, ks in pipespec.spec_instances(ts, cfg).items():
+        for k in ks:
+            out.setdefault(pipespec.shape_label(k, cfg["shapes_ns"]), set()).add(i)
+    return out
+
+
+def exempt_predicates(ts, cfg, labels_here, labels_there, incoming):
+    """(label, predicate) pairs whose constraint may legitimately differ between two runs under
+    remove_empty_shapes: some value (outgoing; subject, for incoming) is an instance of a label that has a shape in
+    one run and none in the other -- a reference to it is printed in one and falls back to the plain kind in the
+    other.  Computed from the abstract triples and the oracle's own instance sets."""
+    if not cfg["remove_empty_shapes"]:
+        return set()
+    by = instances_by_label(ts, cfg)
+    differ = {l for l in by if (l in labels_here) != (l in labels_there)}
+    if not differ:
+        return set()
+    unstable = set().union(*[by[l] for l in differ])
+    labels_of = {}
+    for l, ins in by.items():
+        for i in ins:
+            labels_of.setdefault(i, set()).add(l)
+    out = set()
+    for s, p, o in ts:
+        if o[0] == "L":
+            continue
+        a, b = (o, s) if incoming else (s, o)
+        if a[1] in labels_of and b[1] in unstable:
+            out |= {(l, p) for l in labels_of[a[1]]}
+    return out
+
+
+def three_runs(case, docs):
+    cfg = case["runs"][0][1]
+    ts = case["runs"][0][0]
+    tau = cfg["tau"]
+    is_map = pipemap.is_map(cfg)
+    d1, d2 = docs[0], docs[1]
+    d3 = docs[2] if len(docs) > 2 else None
+    fails = []
+    n1 = {s["label"]: s["n"] for s in d1["shapes"]}
+    n2 = {s["label"]: s["n"] for s in d2["shapes"]}
+    a, b = cons_list(d1, False, tau, False), cons_list(d2, False, tau, False)
+    if not is_map:
+        if n1 != n2:
+            fails.append((None, "inverse_paths changes shapes / instance counts: %r vs %r" % (n1, n2)))
+        if a != b:
+            k = [x for x in a if a[x] != b.get(x)][:1]
+            fails.append((None, "inverse_paths changes the outgoing constraints of %r" % k))
+    else:
+        # a label whose nodes have no outgoing feature has an empty shape without inverse_paths, which
+        # remove_empty_shapes deletes: with inverse_paths the shape may exist, without any outgoing constraint
+        ex = exempt_predicates(ts, cfg, set(n1), set(n2), incoming=False)
+        for label in n2:
+            if label not in n1:
+                fails.append((None, "shape %s exists without inverse_paths and not with it" % label))
+        for label in n1:
+            if label not in n2:
+                if not cfg["remove_empty_shapes"] or a[label]:
+                    fails.append((None, "shape %s exists with inverse_paths only, outgoing constraints %r" % (label, a[label][:2])))
+                continue
+            if n1[label] != n2[label]:
+                fails.append((None, "inverse_paths changes the instance count of %s: %r vs %r" % (label, n1[label], n2[label])))
+            x = [c for c in a[label] if (label, c[0]) not in ex]
+            y = [c for c in b[label] if (label, c[0]) not in ex]
+            if x != y:
+                fails.append((None, "inverse_paths changes the outgoing constraints of %s: %r vs %r" % (
+                    label, [c for c in x if c not in y][:2], [c for c in y if c not in x][:2])))
+    if d3 is not None and case["meta"].get("iri_only"):
+        inv, rev = cons_list(d1, True, tau, True), cons_list(d3, False, tau, True)
+        ex = exempt_predicates(ts, cfg, set(n1), {s["label"] for s in d3["shapes"]}, incoming=True) if is_map else set()
+        for label in inv:
+            x = sorted(c for c in inv[label] if (label, c[0]) not in ex)
+            y = sorted(c for c in rev.get(label, []) if (label, c[0]) not in ex)
+            if x != y:
+                fails.append((None, "incoming constraints of %s differ from the outgoing constraints of the reversed "
+                                    "graph: %r vs %r" % (label, [c for c in x if c not in y][:2], [c for c in y if c not in x][:2])))
+    return fails
+
+
+def reader_gives_back(ts, timeout=5.0):
+    """the premise of the literal streams: the real N-Triples reader yields the abstract triples of pipe.nt_doc(ts),
+    IRI-spelled literals included (kind, identifier / lexical form, datatype); returns a description of the first
+    difference or None"""
+    import signal
+    from shexer.io.graph.yielder.nt_triples_yielder import NtTriplesYielder
+    from shexer.model.IRI import IRI
+    from shexer.model.bnode import BNode
+    from shexer.model.Literal import Literal
+
+    def abstract(x):
+        if isinstance(x, Literal):
+            return ("L", str(x), x.elem_type)
+        if isinstance(x, BNode):
+            return ("B", x.iri)
+        if isinstance(x, IRI):
+            return ("I", x.iri)
+        return ("?", str(x))
+    old = signal.signal(signal.SIGALRM, pipe._alarm)
+    signal.setitimer(signal.ITIMER_REAL, timeout)
+    try:
+        got = [(abstract(s), str(p), abstract(o)) for s, p, o in NtTriplesYielder(raw_graph=pipe.nt_doc(ts)).yield_triples()]
+    except pipe.Hang:
+        return "the N-Triples reader does not terminate on the document"
+    except Exception as e:  # noqa: BLE001
+        return "the N-Triples reader raises %s" % type(e).__name__
+    finally:
+        signal.setitimer(signal.ITIMER_REAL, 0)
+        signal.signal(signal.SIGALRM, old)
+    want = [(tuple(s), p, tuple(o[:3])) for s, p, o in ts]
+    if got != want:
+        k = next((i for i, (a, b) in enumerate(zip(got, want)) if a != b), min(len(got), len(want)))
+        return "the N-Triples reader yields %r for statement %d, written from %r" % (
+            got[k] if k < len(got) else None, k, want[k] if k < len(want) else None)
+    return None
+
+
 class Spec(pipeprops.PropSpec):
     pid = "C14"
     theorems = "C14_direct_unchanged, C14_profile_direct_independent (Props/C14.v)"
     projection = staticmethod(pipeprops.proj_figures)
     projection_name = "per shape label, instance count, constraints with direction, cardinalities and all figures"
+    literal_contents = ("literal contents are alphanumeric, or the IRI / blank-node label of a node, a class or a "
+                        "property of the document (no character that N-Triples escapes; the real reader gives them "
+                        "back as written, plain, ^^xsd:string, ^^xsd:anyURI and @en alike)")
     rule = ("graphs as C01; three fresh Shapers: (G, inverse_paths on), (G, off), (typing triples of G + every "
             "non-literal non-typing triple reversed, off); the reversed comparison is strict on graphs without blank "
-            "nodes; non-trivial = some class with >= 2 instances and some non-typing triple")
+            "nodes; the incoming constraints of the first run recounted from the triples (keys and figures); "
+            "non-trivial = some class with >= 2 instances and some non-typing triple; plus the same with 1..4 "
+            "literals spelled like a typed node / object / class / property of the graph (plain, ^^xsd:string, "
+            "xsd:anyURI, @en); plus shape-map cases (families: works that only occur as objects selected by node "
+            "selectors or {_ p FOCUS}; labelled nodes pointing at labelled nodes; C01's graphs with random selectors "
+            "answering IRIs), third run = the oracle's denotation as node selectors on the reversed graph")
 
     def gen_cases(self, tier, rnd):
         n = 15000 if tier == "thorough" else 1000
@@ -45,29 +416,37 @@ class Spec(pipeprops.PropSpec):
             on["inverse_paths"], off["inverse_paths"] = True, False
             cases.append({"runs": [(ts, on), (ts, off), (reverse_graph(ts, cfg["tau"]), off)],
                           "meta": {"iri_only": all(t[0][0] != "B" and t[2][0] != "B" for t in ts)}})
+        n = 4000 if tier == "thorough" else 300
+        for i in range(n):
+            r = random.Random(rnd.getrandbits(48))
+            ts = pipe.gen_graph(r, general=(i % 3 != 0))
+            if i % 4 != 3:
+                ts = [t for t in ts if t[0][0] != "B" and t[2][0] != "B"]
+            ts = plant_iri_literals(r, ts)
+            cfg = pipeprops.random_cfg(r, ts, i)
+            on, off = dict(cfg), dict(cfg)
+            on["inverse_paths"], off["inverse_paths"] = True, False
+            note_inputs(ts, on, "iri_literal")
+            cases.append({"runs": [(ts, on), (ts, off), (reverse_graph(ts, cfg["tau"]), off)],
+                          "meta": {"stream": "iri-literals",
+                                   "iri_only": all(t[0][0] != "B" and t[2][0] != "B" for t in ts)}})
+        n = 4000 if tier == "thorough" else 300
+        for i in range(n):
+            cases.append(map_case(random.Random(rnd.getrandbits(48)), i))
         return cases
 
     def oracle(self, case, impl):
         if any(r[0] != "ok" for r in impl):
             return [], 0
-        tau = case["runs"][0][1]["tau"]
-        d1, d2, d3 = [pipe.canon(r[1]) for r in impl]
-        fails = []
-        n1 = {s["label"]: s["n"] for s in d1["shapes"]}
-        n2 = {s["label"]: s["n"] for s in d2["shapes"]}
-        if n1 != n2:
-            fails.append((None, "inverse_paths changes shapes / instance counts: %r vs %r" % (n1, n2)))
-        a, b = cons_list(d1, False, tau, False), cons_list(d2, False, tau, False)
-        if a != b:
-            k = [x for x in a if a[x] != b.get(x)][:1]
-            fails.append((None, "inverse_paths changes the outgoing constraints of %r" % k))
-        if case["meta"].get("iri_only"):
-            inv, rev = cons_list(d1, True, tau, True), cons_list(d3, False, tau, True)
-            for label in inv:
-                if sorted(inv[label]) != sorted(rev.get(label, [])):
-                    fails.append((None, "incoming constraints of %s differ from the outgoing constraints of the reversed "
-                                        "graph: %r vs %r" % (label, sorted(inv[label])[:2], sorted(rev.get(label, []))[:2])))
-        return fails, 2
+        docs = [pipe.canon(r[1]) for r in impl]
+        fails = three_runs(case, docs)
+        ts, on = case["runs"][0][0], case["runs"][0][1]
+        more, n = recount_incoming(ts, on, docs[0])
+        if case["meta"].get("stream") in ("iri-literals", "shape-map"):
+            bad = reader_gives_back(ts)
+            if bad:
+                more.append((None, bad))
+        return fails + more, 2 + n
 
 
 def run(tier, seed, replay=None):
